@@ -99,6 +99,15 @@ def _run_unit(unit_name, defines=(), canary=None, seed=0, rlimit=None, tag='main
             # the rest of the function is checked under a false assumption and may wander
             if not canary:
                 hard.append('rlimit: ' + msg)
+            else:
+                # the solver gave up before proving the injected `assert(false)`: the canary is NOT proved
+                for sp in d.get('spans', []):
+                    lm = lines.get(str(sp['line_start'])) or {}
+                    if lm.get('fn'):
+                        for _ in range(8):
+                            failures.append({'fn': lm['fn'], 'clause': 'CANARY', 'kind': 'rlimit', 'message': 'canary not proved (rlimit)',
+                                             'out_line': sp['line_start'], 'src': None})
+                        break
             continue
         if kind is None:
             hard.append(msg + ' @ ' + ','.join('%s:%s' % (s['file_name'], s['line_start']) for s in d.get('spans', [])[:2]))
